@@ -54,3 +54,73 @@ def discharge(report, C, pc, pid, scen_name, spec, timeout_ms, extra_witness=Non
 
 def pipeline_panic_events(s):
     return [e for e in s.events if e[0] == 'PANIC']
+
+
+# ------------------------------------------------------------------ process-parallel scenario runner
+_PG = {}
+
+
+def _par_work(i):
+    import z3 as _z3
+    from mirsmt import witness as _w
+    ctx, fn, items = _PG['ctx'], _PG['fn'], _PG['items']
+    rep = common.Report(_PG['pid'], 'quick', 0)
+
+    def go():
+        fn(ctx, rep, *items[i])
+    engine.run_in_big_stack(go)
+    tot, used, enc = ctx.totals()
+    ctx.interps.clear()
+    table = None
+    for v in rep.violations:
+        try:
+            if v.get('spec') is not None:
+                model = v.get('model')
+                if model is None and v.get('pc') is not None:
+                    s = _z3.Solver()
+                    s.add(*v['pc'])
+                    model = s.model() if s.check() == _z3.sat else None
+                table = table or _w.load_table()
+                v['spec_json'] = _w.spec_json(v['spec'], model, table)
+        except Exception as ex:      # noqa
+            v['witness_error'] = str(ex)[:200]
+        for k in ('spec', 'model', 'pc'):
+            v.pop(k, None)
+        nc = v.get('native_check')
+        if nc is not None:
+            v['native_check_name'] = getattr(nc, '__qualname__', None)
+    obs = [(o.oid, o.text, o.status, o.detail, o.cex) for o in rep.obligations]
+    vs = [{k: x for k, x in v.items() if k != 'native_check'} for v in rep.violations]
+    return {'obs': obs, 'vios': vs, 'q': rep.queries, 'solver_s': rep.solver_s, '_tot': tot, '_used': used, '_enc': enc}
+
+
+def run_parallel(ctx, report, fn, items, nproc=None):
+    """fn(ctx, report, *item) appends obligations / violations to the report it is given; items are run in forked workers"""
+    import multiprocessing as mp
+    import os
+    _PG.update(ctx=ctx, fn=fn, items=items, pid=report.pid)
+    nproc = nproc or int(os.environ.get('VERIF_JOBS', '14'))
+    with mp.get_context('fork').Pool(min(nproc, max(1, len(items)))) as pool:
+        results = pool.map(_par_work, range(len(items)), chunksize=1)
+    agg = {'steps': 0, 'queries': 0, 'qtime': 0.0, 'forks': 0, 'calls_interpreted': 0, 'calls_modelled': 0}
+    used, enc = {}, {}
+    for r in results:
+        report.queries += r['q']
+        report.solver_s += r['solver_s']
+        for k in agg:
+            agg[k] += r['_tot'][k]
+        for k, v in r['_used'].items():
+            used[k] = used.get(k, 0) + v
+        enc.update(r['_enc'])
+        for oid, text, status, detail, cex in r['obs']:
+            ob = common.Obligation(oid, text)
+            ob.status, ob.detail, ob.cex = status, detail, cex
+            report.add(ob)
+        for v in r['vios']:
+            report.violations.append(v)
+
+    class _S:
+        pass
+    s = _S()
+    s.stats, s.models_used, s.fns_encoded = agg, used, enc
+    ctx.interps.append(s)
